@@ -146,6 +146,33 @@ def g_signflag(tier):
         yield mkprog(base + '/while', [st(), A(V('hc'), C(2)), While(B('&&', t(), V('hc')), ExprS(Inc('--', False, V('hc')))), one()])
 
 
+def g_jmp_label(tier):
+    """two paths that leave different constants in a register meet at a label that directly follows a JMP to it (the optimiser removes
+    such a JMP): break at the end of the last case, return at the end of an inline body, continue at the end of a loop body - then a
+    statement that needs one of the constants"""
+    inc = lambda n: ExprS(Inc('++', False, V(n)))
+    regs = [('vb', lambda: V('vb')), ('X', lambda: X), ('Y', lambda: Y)]
+    for (rn, R), (k1, k2) in itertools.product(regs, ((5, 7), (0, 1), (2, 2))):
+        base = 'w5/jmp-label/%s/%d-%d' % (rn, k1, k2)
+        after = [('st', lambda: A(V('vc'), C(k2))), ('inc-st', lambda: Block([inc('vd'), A(V('vc'), C(k2))])), ('cmp', lambda: If(B('==', R(), C(k2)), A(V('vc'), C(1)), A(V('vc'), C(2)))),
+                 ('reg', lambda: A(X if rn != 'X' else Y, C(k2))), ('st1', lambda: A(V('vc'), C(k1)))]
+        for an, af in after:
+            yield mkprog(base + '/switch-default-break/' + an, [Switch(V('va'), [(1, [A(R(), C(k1)), Break()]), (None, [A(R(), C(k2)), Break()])]), af()])
+            yield mkprog(base + '/switch-case-break/' + an, [Switch(V('va'), [(1, [A(R(), C(k1)), Break()]), (2, [A(R(), C(k2)), Break()])]), af()])
+            yield mkprog(base + '/if-else-goto/' + an, [If(V('va'), Block([A(R(), C(k1)), Goto('out')])), A(R(), C(k2)), Goto('out'), Label('out', af())])
+            yield mkprog(base + '/loop-continue/' + an, [A(V('sa'), C(2)), While(V('sa'), Block([ExprS(Inc('--', False, V('sa'))), If(V('va'), Block([A(R(), C(k1)), Continue()])), A(R(), C(k2)), Continue()])), af()])
+            if rn == 'vb':
+                for inl in (True, False):
+                    f = lambda: Func('f', 'u8', [], Block([If(V('va'), Return(C(k1))), Return(C(k2))]), inline=inl)
+                    g = lambda: Func('f', 'u8', [], Block([If(V('va'), Block([Return(C(k1))]), Block([Return(C(k2))]))]), inline=inl)
+                    t = 'inl' if inl else 'fn'
+                    yield mkprog(base + '/%s-return/%s' % (t, an), [A(V('vb'), Call('f', [])), af()], funcs=[f()])
+                    yield mkprog(base + '/%s-return-else/%s' % (t, an), [A(V('vb'), Call('f', [])), af()], funcs=[g()])
+                    if an != 'st': continue
+                    yield mkprog(base + '/%s-switch/%s' % (t, an), [Switch(Call('f', []), [(k2, [A(V('vc'), C(1)), Break()]), (k1 if k1 != k2 else k1 + 1, [A(V('vc'), C(2)), Break()]), (None, [A(V('vc'), C(3))])])], funcs=[f()])
+                    yield mkprog(base + '/%s-if/%s' % (t, an), [If(B('==', Call('f', []), C(k2)), A(V('vc'), C(1)), A(V('vc'), C(2)))], funcs=[f()])
+
+
 def g_wave4(tier):
     yield from g_hwflags(tier)
     yield from g_logic_else(tier)
@@ -154,3 +181,4 @@ def g_wave4(tier):
     yield from g_shift_reread(tier)
     yield from g_reload_flags(tier)
     yield from g_signflag(tier)
+    yield from g_jmp_label(tier)
